@@ -27,6 +27,10 @@
 (* Selection (InitSel/NextSel, G).  Every selection argument for NA atoms   *)
 (* with the list of atom indices it denotes (printed, tag "SEL").           *)
 (*                                                                         *)
+(* Fragment geometry (InitFrag/NextFrag, G+V).  Every selection form x {no   *)
+(* link, one link, two links} (tag "FRG"); the fragment geometries the code  *)
+(* builds for them are judged by C15Trace (kind "fraggeom").                 *)
+(*                                                                         *)
 (* Link (InitLink/NextLink, G).  Cap position = staying + factor (leaving   *)
 (* - staying) in exact integer arithmetic: coordinates in units of 1/8,     *)
 (* factors in units of 1/8, results in units of 1/64 (printed, tag "LNK").  *)
@@ -107,6 +111,28 @@ NextSel == /\ k = 0 /\ k' = 1
            /\ PrintT(<<"SEL", ToJson([na |-> NA, sel |-> gcase, atoms |-> Resolve(gcase)])>>)
            /\ UNCHANGED <<frs, acc, gcase>>
 
+\* ---- G: selection form x broken links (the fragment geometry the solvers see) ---------------------------
+\* every selection argument x {no link, one link, two links}; a link [s, l, f]: s a selected atom, l an atom outside the
+\* selection (any other atom for the whole-system form), f in Factors.  The driver runs each case through the real
+\* distribute_atoms and C15Trace (kind "fraggeom") judges the recorded fragment geometry: selected atoms + exact caps.
+LinkChoices(sel) == LET A   == AtomSet(sel)
+                        out == IF sel.kind = "none" THEN Atoms ELSE Atoms \ A
+                    IN {c \in {[s |-> s, l |-> l, f |-> f] : s \in A, l \in out, f \in Factors} : c.s # c.l}
+LinkLists(sel) == {<<>>} \cup {<<a>> : a \in LinkChoices(sel)}
+                  \cup ({<<a, b>> : a \in LinkChoices(sel), b \in LinkChoices(sel)} \ {<<a, a>> : a \in LinkChoices(sel)})
+\* degenerate inputs are left out: a cap placed exactly on an atom (factor 8/8 puts it on the leaving atom: excluded when
+\* the leaving atom belongs to the fragment, and for two links to the same leaving atom)
+NonDegenerate(se, li) ==
+  /\ \A i \in 1..Len(li) : ~(li[i].f = 8 /\ li[i].l \in AtomSet(se))
+  /\ (Len(li) = 2 => ~(li[1].f = 8 /\ li[2].f = 8 /\ li[1].l = li[2].l))
+InitFrag == /\ frs = <<>> /\ k = 0 /\ acc = EmptyBag
+            /\ gcase \in UNION { {[sel |-> se, links |-> li] : li \in {x \in LinkLists(se) : NonDegenerate(se, x)}} : se \in SelArgs \cup {SelCount(0)} }
+NextFrag == /\ k = 0 /\ k' = 1
+            /\ PrintT(<<"FRG", ToJson([na |-> NA, sel |-> gcase.sel, links |-> gcase.links, atoms |-> Resolve(gcase.sel)])>>)
+            /\ UNCHANGED <<frs, acc, gcase>>
+\* every link of a case starts inside the selection
+FragCaseOK == \A i \in 1..Len(gcase.links) : gcase.links[i].s \in AtomSet(gcase.sel) /\ gcase.links[i].l # gcase.links[i].s
+
 \* ---- G: link atoms ------------------------------------------------------------------------------
 Vec == Coords \X Coords \X Coords
 Cap(s, l, f) == [i \in 1..3 |-> 8 * s[i] + f * (l[i] - s[i])]       \* units 1/64
@@ -125,6 +151,8 @@ CapOnBond == LET c == Cap(gcase.s, gcase.l, gcase.f) IN
 CoordsSmall == {-9, 0, 13}
 CoordsWide  == {-9, 0, 4, 13}
 FactorsAll  == {0, 4, 5, 8, 11, 16}
+FactorsTwo  == {5, 8}
+FactorsOne  == {6}
 Opt1  == {"o"}
 Opt2  == {"o", "p"}
 Meth2 == {"LO", "HI"}
